@@ -1,0 +1,44 @@
+//! Whole-system accessors for the verification harness (cfg mmtk_verif only).
+
+use crate::plan::{AllocationSemantics, Mutator};
+use crate::policy::space::Space;
+use crate::util::Address;
+use crate::vm::VMBinding;
+use crate::MMTK;
+
+/// Name of the space the SFT map resolves `addr` to ("empty" for the empty SFT entry).
+pub fn space_name_of_address(addr: Address) -> &'static str {
+    crate::mmtk::SFT_MAP.get_checked(addr).name()
+}
+
+/// Name of the space bound to the allocator that `mutator` uses for `semantics`.
+pub fn space_name_for_semantics<VM: VMBinding>(
+    mutator: &Mutator<VM>,
+    semantics: AllocationSemantics,
+) -> &'static str {
+    let selector = mutator.config.allocator_mapping[semantics];
+    unsafe { mutator.allocator(selector) }.get_space().get_name()
+}
+
+/// (name, reserved pages, committed pages) of every space of the plan.
+pub fn space_page_counters<VM: VMBinding>(mmtk: &MMTK<VM>) -> Vec<(&'static str, usize, usize)> {
+    let mut out = vec![];
+    mmtk.get_plan().for_each_space(&mut |space: &dyn Space<VM>| {
+        out.push((
+            space.get_name(),
+            space.reserved_pages(),
+            space.get_page_resource().committed_pages(),
+        ));
+    });
+    out
+}
+
+/// Is the current collection of a generational plan a nursery collection?
+pub fn is_nursery_gc<VM: VMBinding>(mmtk: &MMTK<VM>) -> bool {
+    crate::plan::is_nursery_gc(mmtk.get_plan())
+}
+
+/// Total pages of the heap as the GC trigger sees it.
+pub fn total_pages<VM: VMBinding>(mmtk: &MMTK<VM>) -> usize {
+    mmtk.get_plan().get_total_pages()
+}
